@@ -13,15 +13,13 @@ let cmp_of = function
 let kind_of = function "ss" | "sst" -> StaticSet | "fsv" | "fip" | "fst" -> FlatSet | _ -> raise Not_found
 
 (* step parser: (code, op) list *)
-let rec parse_steps t acc =
-  if not (more t) then List.rev acc
-  else begin
+let parse_one t =
     let code = next_str t in
     let o =
       match code with
-      | "i" -> Insert (next_z t)
+      | "i" | "im" | "ic" -> Insert (next_z t)   (* const& / && overloads: one model *)
       | "e" -> Emplace (next_z t)
-      | "ih" -> let h = next_nat t in let k = next_z t in InsertHint (h, k)
+      | "ih" | "ihm" | "ihc" | "eh" -> let h = next_nat t in let k = next_z t in InsertHint (h, k)
       | "ir" -> InsertRange (next_zlist t)
       | "as" -> Assign (next_zlist t)
       | "asu" | "asui" -> AssignSorted (next_zlist t)   (* container / iterator-pair overload *)
@@ -29,7 +27,7 @@ let rec parse_steps t acc =
       | "cp" -> CopyFrom
       | "rp" -> Replace (next_zlist t)
       | "ek" -> EraseKey (next_z t)
-      | "ep" -> ErasePos (next_nat t)
+      | "ep" | "epc" -> ErasePos (next_nat t)   (* erase(iterator) / erase(const_iterator) *)
       | "er" -> let a = next_nat t in let b = next_nat t in EraseRange (a, b)
       | "ef" -> let a = next_z t in let b = next_z t in EraseIf (pred_of a b)
       | "cl" -> Clear
@@ -37,8 +35,10 @@ let rec parse_steps t acc =
       | "x" -> Extract
       | _ -> raise Not_found
     in
-    parse_steps t ((code, o) :: acc)
-  end
+    (code, o)
+
+let rec parse_steps t acc =
+  if not (more t) then List.rev acc else parse_steps t (parse_one t :: acc)
 
 let supported kind (o : z op) =
   match kind, o with
@@ -84,10 +84,13 @@ let header cap (l : z list) =
   let n = List.length l in
   join [ "S"; string_of_int n; b2s (n = 0); b2s (n = cap); string_of_int cap ]
 
-let qs = [ 0; 1; 2; 3; 4; 5 ]
-let bands = [ 0; 1; 2; 3; 4 ]
+(* every key of the universe: 0..5 in the exhaustive part, -3..8 for the capacity-8 histories *)
+let rec range a b = if a > b then [] else a :: range (a + 1) b
+let qs_of cap = if cap >= 8 then range (-3) 8 else range 0 5
+let bands_of cap = if cap >= 8 then range (-3) 7 else range 0 4
 
 let model_leg fam cmpname cap steps =
+  let qs = qs_of cap and bands = bands_of cap in
   let kind = kind_of fam in
   let lt = cmp_of cmpname in
   let transparent = cmpname = "tless" in
@@ -115,6 +118,7 @@ let model_leg fam cmpname cap steps =
   with Bad m -> m
 
 let spec_leg fam cmpname cap steps =
+  let qs = qs_of cap and bands = bands_of cap in
   let kind = kind_of fam in
   let lt = cmp_of cmpname in
   let transparent = cmpname = "tless" in
@@ -140,8 +144,28 @@ let spec_leg fam cmpname cap steps =
       tokjoin (steps_s @ [ header cap l ] @ q_s @ t_s
                @ [ join ("R" :: List.map b2s rel); "T"; contents s.oth ])
 
+(* the stored-comparator family also assigns sets constructed with an explicit comparator:
+   asic d n k..  = flat_set(first, last, dyn_less{d});  asuic d n k.. = flat_set(sorted_unique, first, last, dyn_less{d}) *)
+let rec parse_steps2 t acc =
+  if not (more t) then List.rev acc
+  else begin
+    let code = (match t.rest with [] -> "" | x :: _ -> x) in
+    match code with
+    | "asic" | "asuic" ->
+        let _ = next_str t in
+        let d = next_int t in
+        let c = if d <> 0 then cmp_greater else cmp_less in
+        let ks = next_zlist t in
+        let o = if code = "asic" then AssignIterCmp (c, ks) else AssignSortedIterCmp (c, ks) in
+        parse_steps2 t ((code, o) :: acc)
+    | _ ->
+        (match parse_one t with
+         | (c, o) -> parse_steps2 t ((c, Plain o) :: acc))
+  end
+
 (* flat_set with a stored comparator: s starts ascending, t descending, Compare() is ascending *)
 let dyn_legs cap steps =
+  let qs = qs_of cap in
   let ops = List.map snd steps in
   let start = init2 cmp_less cmp_greater in
   let finish (cur : z cset) (oth : z cset) steps_s ask1 rel =
@@ -152,7 +176,7 @@ let dyn_legs cap steps =
              @ [ join ("R" :: List.map b2s rel); "T"; contents oth.elems ]) in
   let m =
     try
-      let (s, trace) = unres (run2 cmp_less (nat_of_int cap) start ops) in
+      let (s, trace) = unres (run3 cmp_less (nat_of_int cap) start ops) in
       let rec zip codes tr =
         match codes, tr with
         | (c, _) :: cs, (o, l) :: ts -> tokjoin [ c; out_s FlatSet o; contents l ] :: zip cs ts
@@ -163,7 +187,7 @@ let dyn_legs cap steps =
         (unres (relations key_ltb (set_eq key_eqb FlatSet) l s.oth2.elems))
     with Bad m -> m in
   let p =
-    match s_run2 cmp_less (nat_of_int cap) start ops with
+    match s_run3 cmp_less (nat_of_int cap) start ops with
     | None -> "na"
     | Some (s, trace) ->
         let rec zip codes tr =
@@ -190,12 +214,12 @@ let run_case op t =
         | Contract -> "contract" | UB _ -> "ub" | OutOfFuel -> "fuel" in
     let p =
       if n > 8 then "na"
-      else let l = stable_sort_spec lt ks in
+      else let l = s_multiset_of_range lt ks in   (* Spec.v: std::multiset(first, last), the object of C09_flat_multiset_is_std_multiset *)
         join [ "ok"; zlist_s l; string_of_int (List.length l); b2s (l = []) ] in
     (m, p)
   end else if fam = "fsd" then begin
     let cap = next_int t in
-    dyn_legs cap (parse_steps t [])
+    dyn_legs cap (parse_steps2 t [])
   end else begin
     let cap = next_int t in
     let steps = parse_steps t [] in
